@@ -35,6 +35,28 @@ for _b, _v in SAME_WIDTH_BIN.items():
     CONTRACT[_b] = ([_v], {0: 0, 1: 1}, {2: ("width_of", {0, 1})})
 
 
+class _ParamIndex(dict):
+    """parameter id -> position; looked up through aliases (a parameter of an inlined helper that is bound to the builder's parameter)"""
+
+    def __contains__(self, i):
+        return dict.__contains__(self, i) or (i is not None and any(canon(k) == canon(i) for k in dict.keys(self)))
+
+    def get(self, i, d=None):
+        if dict.__contains__(self, i):
+            return dict.__getitem__(self, i)
+        if i is not None:
+            for k, v in dict.items(self):
+                if canon(k) == canon(i):
+                    return v
+        return d
+
+    def __getitem__(self, i):
+        v = self.get(i, None)
+        if v is None:
+            raise KeyError(i)
+        return v
+
+
 def classify_attr(e, pidx, defs, depth=0):
     """abstract value of an attribute expression in a builder body"""
     e = peel(e)
@@ -85,7 +107,7 @@ def check_t2(ctx, t0, rule="T2"):
             continue
         f = fl[0]
         defs = local_defs(f)
-        pidx = {}
+        pidx = _ParamIndex()
         k = 0
         for p in f["params"]:
             b = binding_of(p)
